@@ -181,4 +181,54 @@ theorem C04_extern_block (env : Env) (hc : env.cfg = genLexCfg) (hnf : env.fault
       BlockEvents blk (fun h => h.kind = .ext ∧ h.linkage = linkage) (fun nb mid => body.Ev nb (blk :: rest) mid) evs :=
   (Item.externBlock env (by rw [hc]; exact gen_rules_progress) hnf F D hskip linkage body).sound w b' blk rest hst hk hmu hat
 
+
+/-- **whole sources under a visitor that raises**: for a source that is an `Item` (skipping nothing), the run in which the
+    `i`-th delivered callback raises (`i ≥ 1`) delivers exactly the first `i + 1` callbacks of `on_parse_start` followed by
+    the item's callbacks and fails with that exception; if fewer callbacks are delivered the run is the unfaulted one -/
+theorem C04_whole_source_fault (env : Env) (hp : RulesProgress env.cfg = true) (hnf : env.faultAt = none) (F D : Nat)
+    (it : Item env F (P.core F D)) (filename : String) (content : Str) (bE bEE : Buf)
+    (hat : it.At { tokbuf := [], lex := { rest := content, filename := some filename } } bE)
+    (heof : tokenEofOk env.cfg bE = .ok (none, bEE)) (hF : it.size + 1 ≤ F) (i : Nat) (hi : 1 ≤ i) :
+    ∃ (start : Event) (evs : List Event), start.kind = .parseStart ∧ it.Ev globalBlock [] evs ∧
+      (i < evs.length + 1 →
+        (interp (env.withFault i) (P.parserProg F D) (initWorld (env.withFault i) filename content).1).2 = .error (.visitor i) ∧
+        (interp (env.withFault i) (P.parserProg F D) (initWorld (env.withFault i) filename content).1).1.events = (start :: evs).take (i + 1)) ∧
+      (evs.length + 1 ≤ i →
+        (interp (env.withFault i) (P.parserProg F D) (initWorld (env.withFault i) filename content).1).1.events = start :: evs) := by
+  obtain ⟨wF, start, evs, hrun, hev, hstart, hE, _⟩ := parse_source env hp hnf F D it filename content bE bEE hat heof hF
+  -- the unfaulted run, as an interpretation from the initial world
+  have hn : (initWorld env filename content).2 = none := by simp [initWorld, deliver, hnf]
+  have hw : (interp env (P.parserProg F D) (initWorld env filename content).1).1 = wF := by
+    have := congrArg Prod.fst hrun
+    simp only [runParse] at this
+    rcases hi0 : initWorld env filename content with ⟨w0, r0⟩
+    rw [hi0] at hn this
+    simp only at hn
+    subst hn
+    simp only at this ⊢
+    rcases h1 : interp env (P.parserProg F D) w0 with ⟨w1, r1⟩
+    rw [h1] at this
+    cases r1 with
+    | ok a => exact this
+    | error e => simp only at this; split at this <;> exact this
+  have hcount : wF.delivered = evs.length + 1 := by
+    obtain ⟨suf, hs1, hs2, _⟩ := interp_extends env (P.parserProg F D) (initWorld env filename content).1
+    rw [hw] at hs1 hs2
+    have hc := init_counted env filename content
+    unfold Counted at hc
+    have hlen : wF.events.length = (initWorld env filename content).1.events.length + suf.length := by rw [hs1]; simp
+    rw [hev] at hlen
+    simp only [List.length_cons] at hlen
+    omega
+  have hf := C04_parser_fault env hnf i hi filename content F D
+  simp only at hf
+  rw [hw] at hf
+  refine ⟨start, evs, hstart, hE, ?_, ?_⟩
+  · intro hlt
+    obtain ⟨h1, h2⟩ := hf.2 (by rw [hcount]; exact hlt)
+    exact ⟨h1, by rw [h2, hev]⟩
+  · intro hge
+    have := hf.1 (by rw [hcount]; exact hge)
+    rw [this, hw, hev]
+
 end Cxx
